@@ -172,6 +172,7 @@ def main(argv):
     samples = []
     failures = []
     max_info = {}
+    max_case = {}
     for r in results:
         if not r.get("ok"):
             continue
@@ -193,6 +194,7 @@ def main(argv):
             kk = f"{t['sub']}.{k}"
             if kk not in max_info or abs(v) > abs(max_info[kk]):
                 max_info[kk] = v
+                max_case[kk] = r.get("max_case", {}).get(k)
         if r["samples"] and len(samples) < 12 and (t["mode"] != "hypothesis" or t.get("shard", 0) in (0, 1)):
             for s in r["samples"][:3]:
                 s = dict(s)
@@ -256,6 +258,7 @@ def main(argv):
             "per_subcheck": per_sub, "excluded_by_bucket": excluded, "known_finding_hits": known_hit,
             "inconclusive": inconclusive, "exhaustive": False, "exhaustive_subdomains": exhaustive_subdomains,
             "largest_observed": {k: max_info[k] for k in sorted(max_info)},
+            "largest_observed_cases": {k: max_case.get(k) for k in sorted(max_info)},
             "workers": W, "tasks": len(tasks), "harness_errors": len(errors),
         },
         "assumptions": list(getattr(mod, "ASSUMPTIONS", [])),
